@@ -423,7 +423,7 @@ fn dfs_extend(c: &Collector, prefix: &mut String, depth_left: usize, red: &[char
 pub fn c03(c: &Collector, g: &mut Guard) {
     let a = alphabet_a();
     let n0 = if c.thorough() { 3 } else { 2 };
-    let nmax = if c.thorough() { 6 } else { 5 };
+    let nmax = 5;
     let red = reduced_alphabet();
     c.bound("alphabet_size", json!(a.len()));
     c.bound("alphabet", json!(a.iter().map(|ch| esc(&ch.to_string())).collect::<Vec<_>>()));
